@@ -126,6 +126,10 @@ class SigmaDetectionItem(ProcessingItemTrackingMixin, ParentChainMixin):
         if key is None:  # no key at all means pure keyword detection without value modifiers
             field = None
             modifier_ids = list()
+        elif not isinstance(key, str):
+            raise sigma_exceptions.SigmaDetectionError(
+                "Detection item key must be a string", source=source
+            )
         else:  # key-value detection
             field, *modifier_ids = key.split("|")
             if field == "":
